@@ -24,10 +24,11 @@ PROPS = {
                      "pack ids determine pack content (sha-256)"],
     ),
     "C02": dict(
-        kmod="K_C02", driver="C02", shard=40, explain=True, case_timeout="300s",
+        parts=[dict(driver="C02", kmod="K_C02", shard=40, explain=True), dict(driver="C09", kmod="K_C09", shard=100, explain=True)],
+        case_timeout="300s",
         corr="Sync.sstep (over World.step) = bug.{Create,Read,Commit,Push,Fetch,MergeAll,Remove} on go-git repositories",
         rule=WORLD_RULE, trusted=COMMON_TRUSTED + WORLD_TRUSTED,
-        assumptions=["identity merges are covered by the C09 check (same property, identity side)"],
+        assumptions=["the identity side is the C09 driver (version chains on two replicas, identity.MergeAll) judged by K_C09"],
     ),
     "C03": dict(
         parts=[dict(driver="C03d", kmod="K_C03", shard=400, explain=True), dict(driver="C03w", kmod="K_C03w", shard=40, explain=True)],
@@ -41,18 +42,22 @@ PROPS = {
         assumptions=["two commits with identical content are one git object: such generated inputs are skipped"],
     ),
     "C05": dict(
-        parts=[dict(driver="C05w", kmod="K_C05w", shard=40, explain=True)],
+        parts=[dict(driver="C05w", kmod="K_C05w", shard=40, explain=True), dict(driver="C05cli", kmod="K_C05cli", shard=50, explain=True),
+               dict(driver="C05f", kmod="K_C05f", shard=100, explain=True)],
+        needs_gitbug=True,
         case_timeout="300s",
         corr="Sync.sstep (over World.step, incl. AResetClock) = session actions incl. close/reopen with and without clock files",
         rule=WORLD_RULE, trusted=COMMON_TRUSTED + WORLD_TRUSTED,
         assumptions=["fewer than 10^6 increments per session; no remote serves a root commit with a forged huge clock (finding F-clock)"],
     ),
     "C20": dict(
-        kmod="K_C20", driver="C20", shard=1500,
+        parts=[dict(driver="C20", kmod="K_C20", shard=1500), dict(driver="C20g", kmod="K_C20g", shard=10, explain=True)],
         corr="Page.paginate = connections.{Label,Comment,Operation,TimelineItem,Identity,LazyBug,LazyIdentity}Con",
         rule="exhaustive over list length n<=4 (quick) / n<=6 (thorough) x after/before in {nil, every offset 0..n, foreign, malformed} x first/last in {nil,-1..n+1}, "
              "rotating over the 7 generated connection functions (thorough: all 7 on every input), plus random inputs with n in 5..12; "
-             "non-trivial = n>0 and at least one of first/last/after/before given; distinct = distinct input tuple",
+             "non-trivial = n>0 and at least one of first/last/after/before given; distinct = distinct input tuple; GraphQL part: repositories with 3-9 identities, 2-7 bugs, "
+             "1-8 comments and labels; each of the 8 paginated fields (allIdentities, allBugs, validLabels, comments, operations, timeline, actors, participants) is walked forwards and "
+             "backwards with page size 1-4 through the real HTTP handler, one request per page",
         exhaustive=True,
         trusted=COMMON_TRUSTED + ["modelled, not verified: edge makers and connection makers of the resolvers (re-stated in the harness), base64 cursor codec (used as a black box by the harness)"],
         assumptions=["cursors are compared as strings; an offset cursor >= n designates no element",
